@@ -178,7 +178,7 @@ def _json_reader(ctx, m, gates):
         gates.append(('jsonparser:%s' % kind, l, op, r, st, F))
     # nested grid is detected inside the (gated) dict branch
     dict_b = [b for t, b, n in branches if t == 'isinstance(%s, dict)' % p]
-    if dict_b and any(isinstance(n, ast.Call) and norm(n.func) == 'parse_grid' for st in dict_b[0] for n in ast.walk(st)):
+    if dict_b and any(isinstance(n, ast.Call) and norm(n.func) in ('parse_grid', '_parse_grid') for st in dict_b[0] for n in ast.walk(st)):
         ctx.ob('C10.D1', 'jsonparser: a nested grid is only recognised inside the gated dict branch', True)
     else:
         ctx.error('C10.D1', 'jsonparser: nested-grid detection not found inside the dict branch')
